@@ -103,7 +103,10 @@ def run(ctx):
     if ctx.replay_path and replay(ctx, exe):
         return
     try:
+        only = os.environ.get("C08_ONLY")          # development aid: run one part only (cabinet|pool|fd|tag)
         for kind, K in KINDS.items():
+            if only and kind != only:
+                continue
             # 1. the design: the implementation-shaped model implements the handle-level specification
             ctx.tlc_mc(DIR, K["mc"], K["mc_cfg"][0 if q else 1], required_actions=[a + "|" + a[2:] if a.startswith("Do") else a for a in K["actions"]], timeout=1500)
             # (TLC names an action  \E x : A(x)  either by the wrapper DoA or by A itself)
